@@ -681,3 +681,306 @@ Proof.
     + eapply (inv_elems_ok h g Hinv); eassumption.
     + intros l Hl. apply (Hpres l). eapply reach_elem; eassumption.
 Qed.
+
+(** * untrace *)
+
+Lemma val_eq_dec : forall a b : val, {a = b} + {a <> b}.
+Proof. decide equality; try apply Z.eq_dec; try apply Pos.eq_dec; apply Bool.bool_dec. Qed.
+
+Lemma swap_remove_removes : forall (l : list val) pos o,
+  NoDup (map val_loc l) -> nth_error l pos = Some o ->
+  NoDup (map val_loc (swap_remove pos l))
+  /\ (forall v, In v (swap_remove pos l) <-> In v l /\ v <> o)
+  /\ (forall v, In v (swap_remove pos l) -> val_loc v <> val_loc o)
+  /\ S (length (swap_remove pos l)) = length l.
+Proof.
+  intros l pos o Hnd Hn.
+  destruct (swap_remove_nth val l pos o Hn) as [pre [s [s' [Hl [Hlen [Hsr Hp]]]]]].
+  rewrite Hsr. subst l.
+  assert (Hpp : Permutation (pre ++ s') (pre ++ s)) by (apply Permutation_app_head; exact Hp).
+  rewrite map_app in Hnd; simpl in Hnd. apply NoDup_remove in Hnd. destruct Hnd as [Hnd Hnotin].
+  rewrite <- map_app in Hnd, Hnotin.
+  assert (Hin_iff : forall v, In v (pre ++ s') <-> In v (pre ++ s)).
+  { intros v; split; apply Permutation_in; [exact Hpp | apply Permutation_sym; exact Hpp]. }
+  split.
+  { eapply Permutation_NoDup; [apply Permutation_map, Permutation_sym, Hpp | exact Hnd]. }
+  split.
+  { intros v. rewrite Hin_iff. split.
+    - intros Hin. split.
+      + apply in_app_or in Hin. apply in_or_app. destruct Hin as [H|H]; [left|right; right]; exact H.
+      + intros ->. apply Hnotin. apply in_map; exact Hin.
+    - intros [Hin Hne]. apply in_app_or in Hin. apply in_or_app.
+      destruct Hin as [H|[H|H]]; [left; exact H | exfalso; apply Hne; symmetry; exact H | right; exact H]. }
+  split.
+  { intros v Hin Heq. apply Hin_iff in Hin. apply Hnotin. rewrite <- Heq. apply in_map; exact Hin. }
+  rewrite (Permutation_length Hpp). repeat rewrite app_length. simpl. lia.
+Qed.
+
+Section Untrace.
+  Variable h : heap.
+  Variable g0 : gc.
+  Hypothesis Hinv : GCInv h g0.
+  Variable R : positive -> Prop.
+  Hypothesis R_closed : forall la a vs v l,
+    R la -> PM.find la (cells h) = Some (a, OArr vs) -> In v vs -> val_loc v = Some l -> R l.
+
+  Definition sub (objs : list val) : Prop :=
+    NoDup (map val_loc objs) /\ incl objs (objects g0).
+  Definition shrink (objs objs' : list val) : Prop :=
+    sub objs' /\ incl objs' objs /\ length objs' <= length objs.
+  Definition gone (objs' : list val) (c : val) : Prop :=
+    forall v, In v objs' -> same_box v c = false.
+  Definition removed_sound (objs objs' : list val) : Prop :=
+    forall v l, In v objs -> ~ In v objs' -> val_loc v = Some l -> R l.
+  Definition removed_closed (objs objs' : list val) : Prop :=
+    forall la fl vs c, In (VArr la) objs -> ~ In (VArr la) objs' ->
+      PM.find la (cells h) = Some (fl, OArr vs) -> In c vs -> gone objs' c.
+  Definition ut_post (objs : list val) (o : val) (objs' : list val) : Prop :=
+    shrink objs objs' /\ gone objs' o
+    /\ ((forall l, val_loc o = Some l -> R l) -> removed_sound objs objs')
+    /\ removed_closed objs objs'.
+  Definition utf_post (objs : list val) (vs : list val) (objs' : list val) : Prop :=
+    shrink objs objs' /\ (forall c, In c vs -> gone objs' c)
+    /\ ((forall c l, In c vs -> val_loc c = Some l -> R l) -> removed_sound objs objs')
+    /\ removed_closed objs objs'.
+
+  Lemma shrink_refl : forall objs, sub objs -> shrink objs objs.
+  Proof. intros objs Hs. split; [exact Hs|]. split; [apply incl_refl|lia]. Qed.
+
+  Lemma gone_incl : forall objs objs' c, incl objs' objs -> gone objs c -> gone objs' c.
+  Proof. intros objs objs' c Hi Hg v Hin. apply Hg, Hi, Hin. Qed.
+
+  Lemma ut_post_same : forall objs o, sub objs -> gone objs o -> ut_post objs o objs.
+  Proof.
+    intros objs o Hs Hg. split; [apply shrink_refl; exact Hs|]. split; [exact Hg|]. split.
+    - intros _ v l Hin Hnin. contradiction.
+    - intros la fl vs c Hin Hnin. contradiction.
+  Qed.
+
+  Lemma sub_swap_remove : forall objs pos o, sub objs -> nth_error objs pos = Some o ->
+    shrink objs (swap_remove pos objs) /\ gone (swap_remove pos objs) o
+    /\ (forall v, In v objs -> ~ In v (swap_remove pos objs) -> v = o)
+    /\ S (length (swap_remove pos objs)) = length objs.
+  Proof.
+    intros objs pos o [Hnd Hincl] Hn.
+    destruct (swap_remove_removes objs pos o Hnd Hn) as [Hnd1 [Hiff [Hloc Hlen]]].
+    assert (Hi : incl (swap_remove pos objs) objs) by (intros v Hin; apply Hiff in Hin; exact (proj1 Hin)).
+    split; [split; [split; [exact Hnd1|]|split; [exact Hi|lia]]|].
+    { intros v Hin. apply Hincl, Hi, Hin. }
+    split.
+    { intros v Hin. destruct (same_box v o) eqn:E; [|reflexivity]. exfalso.
+      apply same_box_true in E. destruct E as [l [Lv Lo]]. apply (Hloc v Hin). congruence. }
+    split; [|exact Hlen].
+    intros v Hin Hnin. destruct (val_eq_dec v o) as [Heq|Hne]; [exact Heq|].
+    exfalso. apply Hnin. apply Hiff. split; assumption.
+  Qed.
+
+  Lemma ut_post_leaf : forall objs pos o, sub objs -> nth_error objs pos = Some o ->
+    (forall l, o <> VArr l) -> ut_post objs o (swap_remove pos objs).
+  Proof.
+    intros objs pos o Hs Hn Hna.
+    destruct (sub_swap_remove objs pos o Hs Hn) as [Hsh [Hg [Hrem _]]].
+    split; [exact Hsh|]. split; [exact Hg|]. split.
+    - intros Hr v l Hin Hnin Hl. rewrite (Hrem v Hin Hnin) in Hl. apply Hr; exact Hl.
+    - intros la fl vs c Hin Hnin. exfalso. apply (Hna la). symmetry. apply Hrem; assumption.
+  Qed.
+
+  Lemma ut_post_arr : forall objs pos l vs objs2, sub objs -> nth_error objs pos = Some (VArr l) ->
+    PM.find l (cells h) = Some (true, OArr vs) ->
+    utf_post (swap_remove pos objs) vs objs2 -> ut_post objs (VArr l) objs2.
+  Proof.
+    intros objs pos l vs objs2 Hs Hn Hf [Hsh2 [Hg2 [Hs2 Hc2]]].
+    destruct (sub_swap_remove objs pos (VArr l) Hs Hn) as [[Hsub1 [Hi1 Hl1]] [Hg1 [Hrem _]]].
+    destruct Hsh2 as [Hsub2 [Hi2 Hl2]].
+    split; [split; [exact Hsub2|split; [intros v Hin; apply Hi1, Hi2, Hin|lia]]|].
+    split; [eapply gone_incl; eassumption|]. split.
+    - intros Hr v lv Hin Hnin Hlv.
+      destruct (in_dec val_eq_dec v (swap_remove pos objs)) as [Hin1|Hnin1].
+      + apply (Hs2 (fun c lc Hc Lc => R_closed l true vs c lc (Hr l eq_refl) Hf Hc Lc) v lv Hin1 Hnin Hlv).
+      + rewrite (Hrem v Hin Hnin1) in Hlv. apply Hr; exact Hlv.
+    - intros la fl vs0 c Hin Hnin Hfa Hc.
+      destruct (in_dec val_eq_dec (VArr la) (swap_remove pos objs)) as [Hin1|Hnin1].
+      + eapply Hc2; eassumption.
+      + pose proof (Hrem _ Hin Hnin1) as Heq. inversion Heq; subst la.
+        rewrite Hf in Hfa. inversion Hfa; subst vs0. apply Hg2; exact Hc.
+  Qed.
+
+  Lemma utf_post_of_ut : forall f,
+    (forall g o g', sub (objects g) -> val_ok h o = true -> untrace_fuel f h g o = Ok g' ->
+                    ut_post (objects g) o (objects g')) ->
+    forall vs g g', sub (objects g) -> (forall c, In c vs -> val_ok h c = true) ->
+      fold_left (fun acc v => do ga <- acc; untrace_fuel f h ga v) vs (Ok g) = Ok g' ->
+      utf_post (objects g) vs (objects g').
+  Proof.
+    intros f Hf vs; induction vs as [|c vs IH]; intros g g' Hsub Hok H.
+    - simpl in H. inversion H; subst g'. split; [apply shrink_refl; exact Hsub|].
+      split; [intros c []|]. split.
+      + intros _ v l Hin Hnin; contradiction.
+      + intros la fl vs c Hin Hnin; contradiction.
+    - apply foldM_ok_inv in H. destruct H as [ga [Ea H1]].
+      destruct (Hf g c ga Hsub (Hok c (or_introl eq_refl)) Ea) as [[Hsuba [Hia Hla]] [Hga [Hsa Hca]]].
+      destruct (IH ga g' Hsuba (fun c0 Hin => Hok c0 (or_intror Hin)) H1)
+        as [[Hsub2 [Hi2 Hl2]] [Hg2 [Hs2 Hc2]]].
+      split; [split; [exact Hsub2|split; [intros v Hin; apply Hia, Hi2, Hin|lia]]|].
+      split; [|split].
+      + intros c0 [->|Hin]; [eapply gone_incl; eassumption|apply Hg2; exact Hin].
+      + intros Hr v l Hin Hnin Hl.
+        destruct (in_dec val_eq_dec v (objects ga)) as [Hina|Hnina].
+        * apply (Hs2 (fun c0 l0 Hc0 => Hr c0 l0 (or_intror Hc0)) v l Hina Hnin Hl).
+        * apply (Hsa (fun l0 => Hr c l0 (or_introl eq_refl)) v l Hin Hnina Hl).
+      + intros la fl vs0 c0 Hin Hnin Hfa Hc0.
+        destruct (in_dec val_eq_dec (VArr la) (objects ga)) as [Hina|Hnina].
+        * eapply Hc2; eassumption.
+        * eapply gone_incl; [exact Hi2|]. eapply Hca; eassumption.
+  Qed.
+
+  Lemma found_is_o : forall objs o pos, sub objs -> val_ok h o = true ->
+    position_of o objs = Some pos ->
+    nth_error objs pos = Some o /\ exists l, val_loc o = Some l /\ managed g0 l.
+  Proof.
+    intros objs o pos [Hnd Hincl] Hok Hpos.
+    destruct (position_of_some _ _ _ Hpos) as [a [Hn Hsb]].
+    apply same_box_true in Hsb. destruct Hsb as [l [La Lo]].
+    pose proof (Hincl a (nth_error_In _ _ Hn)) as Hin0.
+    assert (a = o) by (eapply ok_same_loc_eq; [apply (inv_ok h g0 Hinv a Hin0)|exact Hok|exact La|exact Lo]).
+    subst a. split; [exact Hn|]. exists l. split; [exact Lo|]. exists o; split; assumption.
+  Qed.
+
+  Lemma untrace_fuel_spec : forall f g o g', sub (objects g) -> val_ok h o = true ->
+    untrace_fuel f h g o = Ok g' -> ut_post (objects g) o (objects g').
+  Proof.
+    induction f as [|f IH]; intros g o g' Hsub Hok H; [discriminate|].
+    simpl in H. destruct (position_of o (objects g)) as [pos|] eqn:Epos.
+    2:{ inversion H; subst g'. apply ut_post_same; [exact Hsub|]. exact (position_of_none _ _ Epos). }
+    destruct (found_is_o (objects g) o pos Hsub Hok Epos) as [Hn [l0 [Lo Hm]]].
+    destruct o; simpl in Lo; try discriminate; inversion Lo; subst l0.
+    - simpl in H. inversion H; subst g'. simpl objects.
+      apply ut_post_leaf; [exact Hsub|exact Hn|intros l0; discriminate].
+    - simpl in H. inversion H; subst g'. simpl objects.
+      apply ut_post_leaf; [exact Hsub|exact Hn|intros l0; discriminate].
+    - destruct (get_arr h l) as [vs| | |] eqn:Ega; simpl in H; try discriminate.
+      apply get_arr_ok in Ega.
+      match type of H with
+      | bind ?e _ = _ => destruct e as [g2| | |] eqn:Efold; simpl in H; try discriminate
+      end.
+      inversion H; subst g'. simpl objects.
+      apply (ut_post_arr (objects g) pos l vs (objects g2) Hsub Hn Ega).
+      destruct (sub_swap_remove (objects g) pos (VArr l) Hsub Hn) as [[Hsub1 _] _].
+      apply (utf_post_of_ut f IH vs (mkGC (swap_remove pos (objects g)) (bitmap g)) g2 Hsub1);
+        [|exact Efold].
+      intros c Hc. eapply (inv_elems_ok h g0 Hinv); [exact Hm|exact Ega|exact Hc].
+  Qed.
+
+  Lemma untrace_fold_succeeds : forall f,
+    (forall g o, sub (objects g) -> val_ok h o = true -> length (objects g) < f ->
+                 exists g', untrace_fuel f h g o = Ok g') ->
+    forall vs g, sub (objects g) -> (forall c, In c vs -> val_ok h c = true) ->
+      length (objects g) < f ->
+      exists g', fold_left (fun acc v => do ga <- acc; untrace_fuel f h ga v) vs (Ok g) = Ok g'.
+  Proof.
+    intros f Hf vs; induction vs as [|c vs IH]; intros g Hsub Hok Hlt.
+    - exists g; reflexivity.
+    - simpl. destruct (Hf g c Hsub (Hok c (or_introl eq_refl)) Hlt) as [ga Ea]. rewrite Ea.
+      destruct (untrace_fuel_spec f g c ga Hsub (Hok c (or_introl eq_refl)) Ea) as [[Hsuba [_ Hla]] _].
+      apply IH; [exact Hsuba|intros c0 Hin; apply Hok; right; exact Hin|lia].
+  Qed.
+
+  Lemma untrace_fuel_succeeds : forall f g o, sub (objects g) -> val_ok h o = true ->
+    length (objects g) < f -> exists g', untrace_fuel f h g o = Ok g'.
+  Proof.
+    induction f as [|f IH]; intros g o Hsub Hok Hlt; [lia|].
+    simpl. destruct (position_of o (objects g)) as [pos|] eqn:Epos; [|eexists; reflexivity].
+    destruct (found_is_o (objects g) o pos Hsub Hok Epos) as [Hn [l0 [Lo Hm]]].
+    destruct (sub_swap_remove (objects g) pos o Hsub Hn) as [[Hsub1 _] [_ [_ Hlen1]]].
+    destruct o; try (eexists; reflexivity).
+    simpl in Lo. inversion Lo; subst l0.
+    destruct (val_ok_arr_get h l Hok) as [vs Ega]. rewrite Ega. simpl.
+    apply get_arr_ok in Ega.
+    destruct (untrace_fold_succeeds f IH vs (mkGC (swap_remove pos (objects g)) (bitmap g)))
+      as [g2 E2].
+    - exact Hsub1.
+    - intros c Hc. eapply (inv_elems_ok h g0 Hinv); [exact Hm|exact Ega|exact Hc].
+    - simpl objects. lia.
+    - rewrite E2. simpl. eexists; reflexivity.
+  Qed.
+End Untrace.
+
+Theorem untrace_spec : forall h g o, GCInv h g -> roots_managed g [o] -> roots_ok h [o] ->
+  exists g', untrace h g o = Ok g'
+    /\ NoDup (map val_loc (objects g'))
+    /\ (forall v, In v (objects g') <->
+                  (In v (objects g) /\ forall l, val_loc v = Some l -> ~ reach h [o] l)).
+Proof.
+  intros h g o Hinv Hrm Hro.
+  assert (Hok : val_ok h o = true) by (apply Hro; left; reflexivity).
+  assert (Hsub : sub g (objects g)) by (split; [apply (inv_nodup h g Hinv)|apply incl_refl]).
+  destruct (untrace_fuel_succeeds h g Hinv (reach h [o]) (reach_elem h [o])
+              (S (length (objects g))) g o Hsub Hok (Nat.lt_succ_diag_r _))
+    as [g' Hg']. exists g'. split; [exact Hg'|].
+  destruct (untrace_fuel_spec h g Hinv (reach h [o]) (reach_elem h [o]) _ g o g' Hsub Hok Hg')
+    as [[[Hnd' Hi0] [Hi Hlen]] [Hgone [Hsound Hclosed]]].
+  split; [exact Hnd'|].
+  (* nothing reachable from o is left *)
+  assert (Hnone : forall l, reach h [o] l -> forall v, In v (objects g') -> val_loc v <> Some l).
+  { intros l Hr. induction Hr as [v0 l Hin0 Hl0 | la a vs c l Hr IH Hf Hc Hl]; intros v Hin Hv.
+    - destruct Hin0 as [<-|[]]. pose proof (Hgone v Hin) as Hsb.
+      assert (Ht : same_box v o = true) by (apply same_box_true; exists l; split; assumption).
+      rewrite Ht in Hsb. discriminate.
+    - destruct (reach_managed h g Hinv [o] Hrm la Hr) as [va [Hina Lva]].
+      destruct (val_ok_arr_cell h va la a vs (inv_ok h g Hinv va Hina) Lva Hf) as [Hva _]. subst va.
+      assert (Hnin : ~ In (VArr la) (objects g')) by (intros Hc0; apply (IH _ Hc0); reflexivity).
+      pose proof (Hclosed la a vs c Hina Hnin Hf Hc v Hin) as Hsb.
+      assert (Ht : same_box v c = true) by (apply same_box_true; exists l; split; assumption).
+      rewrite Ht in Hsb. discriminate. }
+  intros v. split.
+  - intros Hin. split; [apply Hi; exact Hin|]. intros l Hl Hr. exact (Hnone l Hr v Hin Hl).
+  - intros [Hin Hnr]. destruct (in_dec val_eq_dec v (objects g')) as [Hin'|Hnin]; [exact Hin'|].
+    exfalso.
+    pose proof (inv_heap_vals h g Hinv v Hin) as Hhv. unfold is_heap_val in Hhv.
+    destruct (val_loc v) as [l|] eqn:El; [|discriminate].
+    apply (Hnr l eq_refl).
+    apply (Hsound (fun l0 Hl0 => reach_root h [o] o l0 (or_introl eq_refl) Hl0) v l Hin Hnin El).
+Qed.
+
+(** * Why [roots_ok] (and [inv_elems_ok]) are needed: a machine-checked witness
+
+    Box 5 holds the array [VStr 6]; the only root is the mis-tagged word VFloat 5.  All other
+    hypotheses of C03 hold, the run succeeds, box 6 is reachable (reachability follows the heap
+    contents) and yet it is released: mark sets the bit of box 5 without descending, because the
+    root does not carry the array tag. *)
+Definition wit_h : heap :=
+  mkHeap (PM.add 5%positive (true, OArr [VStr 6%positive])
+            (PM.add 6%positive (true, OStr []) (PM.empty _))) 7%positive 2 0.
+Definition wit_g : gc := mkGC [VArr 5%positive; VStr 6%positive] [].
+Definition wit_roots : list val := [VFloat 5%positive].
+
+Lemma wit_inv : GCInv wit_h wit_g.
+Proof.
+  constructor.
+  - intros v [<-|[<-|[]]]; reflexivity.
+  - simpl. constructor; [intros [H|[]]; discriminate|]. constructor; [intros []|constructor].
+  - intros v [<-|[<-|[]]]; reflexivity.
+  - intros la a vs v l [va [Hin Hl]] Hf Hv Lv.
+    destruct Hin as [<-|[<-|[]]]; simpl in Hl; inversion Hl; subst la;
+      vm_compute in Hf; inversion Hf; subst.
+    destruct Hv as [<-|[]]. exists (VStr 6%positive). split; [right; left; reflexivity|exact Lv].
+  - intros la a vs v [va [Hin Hl]] Hf Hv.
+    destruct Hin as [<-|[<-|[]]]; simpl in Hl; inversion Hl; subst la;
+      vm_compute in Hf; inversion Hf; subst.
+    destruct Hv as [<-|[]]. reflexivity.
+Qed.
+
+Theorem roots_ok_needed :
+  GCInv wit_h wit_g /\ roots_managed wit_g wit_roots /\ reach wit_h wit_roots 6%positive
+  /\ exists g' h', gc_run wit_h wit_g wit_roots = Ok (g', h') /\ h_alive h' 6%positive = false.
+Proof.
+  split; [exact wit_inv|]. split; [|split].
+  - intros v l [<-|[]] Hl. simpl in Hl. inversion Hl; subst l.
+    exists (VArr 5%positive). split; [left; reflexivity|reflexivity].
+  - apply (reach_elem wit_h wit_roots 5%positive true [VStr 6%positive] (VStr 6%positive)).
+    + apply (reach_root wit_h wit_roots (VFloat 5%positive)); [left; reflexivity|reflexivity].
+    + reflexivity.
+    + left; reflexivity.
+    + reflexivity.
+  - eexists; eexists. split; [vm_compute; reflexivity|]. vm_compute. reflexivity.
+Qed.
